@@ -32,6 +32,7 @@ type Drv struct {
 	ReaderCancelAt  int // -1 none
 	WriterFailAt    int
 	WriterShort     bool
+	WriterOnce      bool
 	CbFailAt        int
 	Canceller       bool
 	PreCancel       bool
@@ -60,7 +61,7 @@ func (d *Drv) String() string {
 		s += fmt.Sprintf(" readerCancelAt=%d", d.ReaderCancelAt)
 	}
 	if d.WriterFailAt > 0 {
-		s += fmt.Sprintf(" writerFailAt=%d short=%v", d.WriterFailAt, d.WriterShort)
+		s += fmt.Sprintf(" writerFailAt=%d short=%v transient=%v", d.WriterFailAt, d.WriterShort, d.WriterOnce)
 	}
 	if d.CbFailAt > 0 {
 		s += fmt.Sprintf(" cbFailAt=%d", d.CbFailAt)
@@ -155,7 +156,7 @@ func (r *DrvRun) Body() {
 	if d.Canceller {
 		mc.Go(func() { cancel() })
 	}
-	w := &mcWriter{failAt: d.WriterFailAt, short: d.WriterShort, noYield: d.NoYield}
+	w := &mcWriter{failAt: d.WriterFailAt, short: d.WriterShort, noYield: d.NoYield, once: d.WriterOnce}
 	r.W = w
 	rd := newReader(d.Doc)
 	rd.failAfter = d.ReaderFailAfter
